@@ -237,7 +237,7 @@ def gen_seq_cases(ctx, rng):
         cases.append(case_seq(rng, [(rand_name(rng, ":"), 1) for _ in range(n)]))
     cases.append(case_seq(rng, []))
     cases.append(case_seq(rng, [("A", 0), ("B", 2), ("C", 0)]))
-    for _ in range(ctx.budget(40, 300)):
+    for _ in range(ctx.budget(100, 1000)):
         k = rng.randint(1, 6)
         hi = ctx.budget(4, 40) if rng.random() < 0.2 else 4
         cases.append(case_seq(rng, [(rand_name(rng, ":"), rng.randint(0, hi)) for _ in range(k)]))
@@ -338,7 +338,7 @@ def gen_file_cases(ctx, rng):
         rng.shuffle(letters)
         cases.append(case_letters(rng, rng.choice(["fasta", "ig"]), alpha, "".join(letters)))
     maxlen = ctx.budget(12, 300)
-    for _ in range(ctx.budget(120, 1500)):
+    for _ in range(ctx.budget(400, 5000)):
         n = rng.choice([rng.randint(1, 12), rng.randint(1, maxlen)])
         lenient = rng.random() < 0.15
         roll = rng.random()
@@ -359,7 +359,7 @@ def gen_file_cases(ctx, rng):
         cases.append(dict(kind="file", ext="fasta" if text.startswith(">") else "ig", text=text, fmt="mixed-keywords",
                           expect=None, spec=None, size=len(letters), lenient=True))
     # malformed stream
-    for _ in range(ctx.budget(30, 200)):
+    for _ in range(ctx.budget(80, 600)):
         alpha = rng.choice(["dna", "rna", "aa"])
         n = rng.randint(1, 10)
         letters = "".join(rng.choice(LETTERS[alpha]) for _ in range(n))
@@ -399,7 +399,7 @@ def gen_file_cases(ctx, rng):
 
 def gen_json_cases(ctx, rng):
     cases = []
-    for idx in range(ctx.budget(30, 300)):
+    for idx in range(ctx.budget(80, 800)):
         n = rng.randint(1, 4) if idx < 8 else rng.randint(1, ctx.budget(10, 60))
         with_resid = rng.random() < 0.4
         offset = rng.choice([0, 0, 0, 1, 5])
@@ -577,9 +577,9 @@ def gen_genseq_cases(ctx, rng):
                           fmt="genseq", shape=dict(tree=False, file=False, connects=0, mods=0, tags=0)))
     for _ in range(ctx.budget(15, 60)):
         cases.append(gen_genseq_case(ctx, rng, small=True))
-    for _ in range(ctx.budget(100, 1200)):
+    for _ in range(ctx.budget(300, 4000)):
         cases.append(gen_genseq_case(ctx, rng, lenient=rng.random() < 0.08))
-    for _ in range(ctx.budget(30, 200)):
+    for _ in range(ctx.budget(80, 600)):
         cases.append(malform_genseq(rng, gen_genseq_case(ctx, rng, small=True)))
     return cases
 
@@ -762,8 +762,10 @@ def run(ctx):
         "networkx balanced_tree / disjoint_union / degree / node_link_data / node_link_graph, json.dump/load (modelled; tied by the correspondence on the real write->read composition)",
         "vermouth make_residue_graph + polyply .itp reader for -from_file blocks (parameter: residue names in order, edges by position)",
     ]
-    ctx.extra["explanation"] = ("theorems: C12_tables, C12_linear*, C12_translate, C12_circular, C12_tree, C12_union_offsets, "
-                                "C12_connect, C12_json_roundtrip; the oracle is the Lean specification (Seq.spec*) evaluated on "
+    ctx.extra["explanation"] = ("theorems (all lengths, by induction): C12_tables, C12_linear_shape, C12_linear, C12_linear_parsers, "
+                                "C12_linear_txt, C12_translate, C12_termini, C12_fasta, C12_circular, C12_circular_shape, C12_ig, C12_tree, "
+                                "C12_tree_zero, C12_tree_size, C12_union_offsets, C12_connect, C12_connects, C12_genseq, "
+                                "C12_json_roundtrip, C12_json_sorted; the oracle is the Lean specification (Seq.spec*) evaluated on "
                                 "the abstract input the files / command lines were rendered from")
     ctx.assumptions += [
         "inputs are ASCII; .txt tokens contain no whitespace; integers in command strings are plain decimal digits",
